@@ -102,6 +102,32 @@ def run_store(rep, work, d, exe, prop, tier, label, idx, n, memcap=1, compactn=2
                                       history=hist[-80:], what="store clause %s fails on the real answers and Store.tla does not explain it by a known deviation" % kind))
             rep.violation(path, "%s: %s at event %d (%s): %s" % (label, kind, gi, "history not conformant to Store.tla" if h in drift else "not explained by the deviation ghosts",
                                                               lines[gi][:300]))
+    # the bulk event is judged by its own predicate (TBulk): a refusal there is a verdict, not drift
+    for rj in v["rejected"]:
+        if rj["event"].startswith('{"op":"bulk"'):
+            bad_hist.add(rj["history_start"])
+            path = C.save_replay(prop, "store-%s-%s-seed%d-bulk.json" % (label.replace("/", "_").replace(" ", ""), tier, C.seed()),
+                                 dict(property=prop, tier=tier, seed=C.seed(), part=label, clause="bulk", event=json.loads(rj["event"]),
+                                      what="documents acknowledged by Flush + Close of one large segment are not all found by a fresh session"))
+            rep.violation(path, "%s: one large segment written by Flush + Close is not read back completely: %s" % (label, rj["event"][:300]))
+    # inside a crash image the specification's answer is the oracle (C10 / C16): a refused answer there is a verdict, not drift
+    for rj in v["rejected"]:
+        ev = rj["event"]
+        if not (ev.startswith('{"op":"search.ret"') or ev.startswith('{"op":"image.nextid"') or ev.startswith('{"op":"open')):
+            continue
+        inside, dmg = False, None
+        for x in rj["history"][:rj["event_index"] - rj["history_start"]]:
+            if x.startswith('{"op":"image.begin"'):
+                inside, dmg = True, json.loads(x).get("damage")
+            elif x.startswith('{"op":"image.end"'):
+                inside = False
+        if inside:
+            bad_hist.add(rj["history_start"])
+            path = C.save_replay(prop, "store-%s-%s-seed%d-image-%d.json" % (label.replace("/", "_").replace(" ", ""), tier, C.seed(), rj["event_index"]),
+                                 dict(property=prop, tier=tier, seed=C.seed(), part=label, clause="image-answer", event_index=rj["event_index"], damage=dmg,
+                                      event=json.loads(ev), history=[json.loads(x) for x in rj["history"]][-60:],
+                                      what="the reopened crash image does not answer as Store.tla computes from its disk state"))
+            rep.violation(path, "%s: the reopened crash image (damage %s) answers differently from Store.tla at event %d: %s" % (label, json.dumps(dmg), rj["event_index"], ev[:300]))
     for h in sorted(drift - bad_hist):
         rjs = [x for x in v["rejected"] if x["history_start"] == h]
         if not rjs:
@@ -121,4 +147,6 @@ def damaged_segments(rep, work, d, exe, prop, tier):
     """Store clause of C16: directory images with one component file of a segment truncated / emptied / removed, reopened and searched."""
     quick = tier == "quick"
     ev = run_store(rep, work, d, exe, prop, tier, "damaged-images", 900, 20 if quick else 120, images=0.12, damage=True, steps=20, density=0.3, seed=77)
+    # a trainable vector template: segments may be loaded (by a text query) before the session's template is trained
+    ev += run_store(rep, work, d, exe, prop, tier, "damaged-images/ivf template", 901, 20 if quick else 120, images=0.12, damage=True, steps=20, density=0.3, seed=78, vec="ivf")
     return sum(1 for x in ev if x["op"] == "image.begin" and x["damage"]["kind"] != "none")
